@@ -175,7 +175,12 @@ def _in_child(fn, arg):
             os.close(r)
             import signal
 
-            signal.alarm(900)  # a child that hangs (deadlock in the tree under test) must not outlive the check
+            # a child that hangs (deadlock in the tree under test) must not outlive the check, and must
+            # not keep the check's stdout/stderr pipes open (whoever waits for EOF on them would wait too)
+            signal.alarm(150)
+            dn = os.open(os.devnull, os.O_RDWR)
+            os.dup2(dn, 1)
+            os.dup2(dn, 2)
             data = pickle.dumps(fn(arg))
             os.write(w, struct.pack("<I", len(data)))
             off = 0
@@ -191,12 +196,19 @@ def _in_child(fn, arg):
         finally:
             os._exit(code)
     os.close(w)
+    # read exactly the announced length, not "until EOF": a grandchild that hangs (a deadlock in the
+    # tree under test) inherits the write end and would keep the pipe open long after the child is gone
     chunks = []
-    while True:
+    got = 0
+    want = None
+    while want is None or got < want:
         chunk = os.read(r, 1 << 16)
         if not chunk:
             break
         chunks.append(chunk)
+        got += len(chunk)
+        if want is None and got >= 4:
+            want = 4 + struct.unpack("<I", b"".join(chunks)[:4])[0]
     os.close(r)
     _, status = os.waitpid(pid, 0)
     buf = b"".join(chunks)
